@@ -536,7 +536,39 @@ func c16Automaton(c *Ctx) {
 					}
 				}
 				if okx && fx == "ID" {
-					if call, isCall := bo.Y.(*ssa.Call); isCall && isAtomicCall(call.Common(), "Add") {
+					// the id of the check in progress: the result of the atomic step, directly or kept in a loop variable
+					seenCur := map[ssa.Value]bool{}
+					var isCur func(v ssa.Value, d int) bool
+					isCur = func(v ssa.Value, d int) bool {
+						if d > 8 {
+							return false
+						}
+						if seenCur[v] {
+							return true // a cycle of loop phis: decided by the other edges
+						}
+						seenCur[v] = true
+						if call, isCall := v.(*ssa.Call); isCall && isAtomicCall(call.Common(), "Add") {
+							return true
+						}
+						if phi, isPhi := v.(*ssa.Phi); isPhi {
+							any := false
+							for _, e := range phi.Edges {
+								if e == ssa.Value(phi) {
+									continue
+								}
+								if _, isK := e.(*ssa.Const); isK {
+									continue
+								}
+								if !isCur(e, d+1) {
+									return false
+								}
+								any = true
+							}
+							return any || d > 0
+						}
+						return false
+					}
+					if isCur(bo.Y, 0) {
 						return true
 					}
 				}
